@@ -140,7 +140,7 @@ def run(ctx, anchors=None):
     ctx.inst(nosign, "R09.2", "reject-missing-sign", parser.loc(), "an entry without + or - reaches exit(1)")
     ctx.inst(unknown, "R09.2", "reject-unknown-name", parser.loc(), "an unknown flag name (lookup returned 0) reaches exit(1)")
     from . import common
-    main = common.func_calling(fb, "btcdeb.cpp", "setup_environment")
+    main = common.driver_of(fb, prog, "btcdeb.cpp", "setup_environment")
     common.require_names(main, ["flags"], "R09.2")
     fdecl = [d for n in main.nodes() if n["k"] == "decl" for d in n["decls"] if d["n"] == "flags"]
     ok_init = bool(fdecl) and fdecl[0].get("init") is not None and astq.estr(fdecl[0]["init"]) == A["standard"]
